@@ -203,6 +203,18 @@ func (a *App) Bytecode(name string) ([]byte, bool) {
 	return b, ok
 }
 
+// WithBytecode returns a shallow copy of the application in which one node's bytecode
+// record is replaced (damage injection); the original is not touched.
+func (a *App) WithBytecode(name string, b []byte) *App {
+	c := *a
+	c.code = map[string][]byte{}
+	for k, v := range a.code {
+		c.code[k] = v
+	}
+	c.code[name] = b
+	return &c
+}
+
 // SetBytecode overrides the bytecode table entry (used for canary capacity in C19 and damage in C15).
 func (a *App) SetBytecode(name string, b []byte) { a.code[name] = b }
 
